@@ -131,6 +131,8 @@ def main():
             if mm["mode"] != "verify":
                 continue
             for fm in mm["fns"]:
+                if fm.get("mode") == "decl":
+                    continue
                 tagged = pid in fm.get("props", []) and n in primary
                 imported = (n, mm["file"], mm["header"], fm["fn"]) in needed_imports
                 if tagged or imported:
@@ -147,6 +149,17 @@ def main():
         if k not in have and k[0] in us:
             undec.append(f"imported contract {k} has no proving function in unit {k[0]}")
 
+    # resource-out policy (DESIGN 2.4): an obligation whose *text changed* since the baseline lock and that now
+    # exhausts the resource limit although the baseline discharged it cheaply counts as failed ("passed on the
+    # unchanged tree and now fails, solver reason: resource limit"); on unchanged text it stays undecided (flaky).
+    base = load_baseline()
+    for (n, mod, mm, fm, v) in wanted:
+        if v and v["status"] == "undecided" and v.get("errors") and all(e["kind"] == "rlimit" for e in v["errors"]):
+            b = base.get(obl_key(n, mm, fm))
+            if b and fm.get("sha256") and b.get("sha256") != fm.get("sha256"):
+                v["status"] = "failed"
+                v["errors"].append(dict(kind="verif", title=f"resource limit exceeded on changed text (baseline used rlimit {b.get('rlimit')})",
+                                        text="", lines=[], cover=False))
     failed = [(n, mod, mm, fm, v) for (n, mod, mm, fm, v) in wanted if v and v["status"] == "failed"]
     failed += [(o["unit"], "", dict(file=o.get("file", ""), header=None), dict(fn=o["name"]),
                 dict(status="failed", errors=[dict(kind="verif", title=o.get("detail", ""), text=o.get("detail", ""))]))
@@ -178,6 +191,11 @@ def main():
                         # only a problem if the real obligation was counted as verified
                         vac.append(f"{n}::{mod}::{fm['fn']}")
 
+    if os.environ.get("VERIF_UPDATE_LOCK"):
+        for (n, mod, mm, fm, v) in wanted:
+            if v and v["status"] == "verified" and fm.get("sha256"):
+                base[obl_key(n, mm, fm)] = dict(sha256=fm["sha256"], rlimit=v.get("rlimit", 0), time_us=v.get("time_us", 0))
+        save_baseline(base)
     kf = known_findings(pid)
     kf_obl = {k["obligation"]: k for k in kf}
     real_fail = []
@@ -264,9 +282,11 @@ def main():
     if undec or und_f or vac or lock_new:
         for u_ in undec:
             print("UNDECIDED", u_[:1200])
-        for (n, mod, mm, fm, v) in und_f:
+        for (n, mod, mm, fm, v) in und_f[:12]:
             print(f"UNDECIDED obligation {n}::{mm.get('header')}::{fm['fn']}: " +
                   "; ".join(e["title"] for e in (v or {}).get("errors", []))[:300])
+        if len(und_f) > 12:
+            print(f"UNDECIDED ... and {len(und_f) - 12} more obligations")
         for v_ in vac[:8]:
             print("UNDECIDED vacuity guard: cover twin did not fail for", v_)
         if len(vac) > 8:
@@ -276,6 +296,24 @@ def main():
         return 2
     print(f"OK property={pid} obligations={n_obl} discharged={n_dis} units={len(us)} wall={wall:.1f}s")
     return 0
+
+
+BASELINE = os.path.join(ROOT, "baseline", "obligations.json")
+
+
+def obl_key(n, mm, fm):
+    return f"{n}::{mm.get('file')}::{norm_hdr(mm.get('header'))}::{fm['fn']}"
+
+
+def load_baseline():
+    if os.path.exists(BASELINE):
+        return json.load(open(BASELINE))
+    return {}
+
+
+def save_baseline(b):
+    os.makedirs(os.path.dirname(BASELINE), exist_ok=True)
+    json.dump(b, open(BASELINE, "w"), indent=0, sort_keys=True)
 
 
 def norm_hdr(h):
